@@ -46,6 +46,7 @@ func Gen(cfgs []string) func(t *rapid.T) *Case {
 		if c.Fault == "badrow" {
 			c.Fill = ""
 		}
+		c.Nested = c.Fault == "none" && c.Config != "durable" && rapid.Bool().Draw(t, "nested")
 		if c.Fault != "none" && c.Fault != "cancel-before" {
 			c.K = rapid.IntRange(1, c.N-c.Start+2).Draw(t, "k")
 			if c.Fault == "badrow" {
